@@ -65,6 +65,32 @@ def tinyGcda (lo hi : Nat) : List Nat :=
   w32 TAG_COUNTER_ARCS ++ w32 2 ++ [lo, lo, lo, lo, hi, hi, hi, hi] ++
   w32 0
 
+/-- format 4.2, one function with three blocks: entry 0 → 1, a self loop 1 → 1, 1 → exit 2, all
+counted; line 5 lives in blocks 0 and 1 (so its count goes through `get_line_count` and the cycle
+search), line 6 in block 1 -/
+def loopGcno : List Nat :=
+  [111, 110, 99, 103] ++ [42, 50, 48, 52] ++ w32 7 ++
+  w32 TAG_FUNCTION ++ w32 0 ++ w32 1 ++ w32 2 ++ w32 1 ++ [102, 0, 0, 0] ++ w32 1 ++ [97, 46, 99, 0] ++ w32 1 ++
+  w32 TAG_BLOCKS ++ w32 3 ++ w32 0 ++ w32 0 ++ w32 0 ++
+  w32 TAG_ARCS ++ w32 3 ++ w32 0 ++ w32 1 ++ w32 0 ++
+  w32 TAG_ARCS ++ w32 5 ++ w32 1 ++ w32 1 ++ w32 0 ++ w32 2 ++ w32 0 ++
+  w32 TAG_LINES ++ w32 0 ++ w32 0 ++ w32 0 ++ w32 1 ++ [97, 46, 99, 0] ++ w32 5 ++ w32 0 ++ w32 0 ++
+  w32 TAG_LINES ++ w32 0 ++ w32 1 ++ w32 0 ++ w32 1 ++ [97, 46, 99, 0] ++ w32 5 ++ w32 6 ++ w32 0 ++ w32 0 ++
+  w32 0
+
+/-- its gcda: the function was entered once and went round the loop three times -/
+def loopGcda : List Nat :=
+  [97, 100, 99, 103] ++ [42, 50, 48, 52] ++ w32 7 ++
+  w32 TAG_FUNCTION ++ w32 2 ++ w32 1 ++ w32 2 ++
+  w32 TAG_COUNTER_ARCS ++ w32 6 ++ w32 1 ++ w32 0 ++ w32 3 ++ w32 0 ++ w32 1 ++ w32 0 ++
+  w32 0
+
+/-- the count of line `l` of file `a.c` in a result -/
+def lineOf (o : Outcome (List (Bytes × Cov))) (l : Nat) : Option Nat :=
+  match o with
+  | .ok rs => (AList.get? rs [97, 46, 99]).bind fun c => AList.get? c.lines l
+  | _ => none
+
 /-- format 12 ("B22*"), one function, then `k` BLOCKS records each announcing as many blocks as
 bytes are left after it -/
 def blocksRecs : Nat → Nat → List Nat
@@ -102,12 +128,273 @@ theorem finish_size {P : Bool → List Nat → List DRec}
       omega
     · simp [DRec.size]
 
+theorem parseCounters_some_len {le : Bool} {k : Nat} {bs vs r : List Nat}
+    (h : parseCounters le k bs [] = (vs, some r)) : 8 * vs.length + r.length ≤ bs.length := by
+  have := parseCounters_length le k bs []
+  rw [h] at this
+  simpa [optLen] using this
+
+theorem parseCounters_none_len {le : Bool} {k : Nat} {bs vs : List Nat}
+    (h : parseCounters le k bs [] = (vs, none)) : 8 * vs.length ≤ bs.length := by
+  have := parseCounters_length le k bs []
+  rw [h] at this
+  simpa [optLen] using this
+
 /-- the gcda record stream is linear in the input: records + counters ≤ bytes -/
 theorem parseDRecs_size (le : Bool) (version : Nat) (fuel : Nat) (hf : Bool) (bs : List Nat) :
     ((parseDRecs le version fuel hf bs).map DRec.size).sum ≤ bs.length := by
   fun_induction parseDRecs le version fuel hf bs
   all_goals (try simp only [List.map_nil, List.sum_nil, List.map_cons, List.sum_cons, DRec.size,
     Nat.zero_le])
-  all_goals (try grind [readU32_length, skipN_length])
+  all_goals (try (have hpc := parseCounters_some_len ‹parseCounters le _ _ [] = (_, some _)›))
+  all_goals (try (have hpn := parseCounters_none_len ‹parseCounters le _ _ [] = (_, none)›))
+  all_goals first
+    | grind [readU32_length, skipN_length]
+    | (have ih := ‹∀ (haveFn' : Bool) (r' : List Nat),
+          (List.map DRec.size (parseDRecs le version _ haveFn' r')).sum ≤ r'.length›
+       refine Nat.le_trans (finish_size (P := parseDRecs le version _)
+         (fun hf r => ih hf r) _ _ _ _ _) ?_
+       simp only [List.map_cons, List.map_nil, List.sum_cons, List.sum_nil, DRec.size]
+       repeat (have hl := readU32_length ‹readU32 _ _ = PR.ok _ _›; clear ‹readU32 _ _ = PR.ok _ _›)
+       repeat (have hl := skipN_length ‹skipN _ _ = PR.ok _ _›; clear ‹skipN _ _ = PR.ok _ _›)
+       omega)
+
+/-! ## gcno: linear except for the block tables -/
+
+def LineItem.size : LineItem → Nat
+  | .line _ => 1
+  | .file nm => 1 + nm.length
+
+def NRec.size : NRec → Nat
+  | .func _ _ _ name file _ _ => 1 + name.length + file.length
+  | .arcs _ as => 1 + as.length
+  | .lines _ items => 1 + (items.map LineItem.size).sum
+  | _ => 1
+
+@[simp] theorem NRec.size_func {a b c : Nat} {n f : Bytes} {d e : Nat} :
+    (NRec.func a b c n f d e).size = 1 + n.length + f.length := rfl
+@[simp] theorem NRec.size_blocks {n : Nat} : (NRec.blocks n).size = 1 := rfl
+@[simp] theorem NRec.size_arcs {n : Nat} {l : List (Nat × Nat)} : (NRec.arcs n l).size = 1 + l.length := rfl
+@[simp] theorem NRec.size_lines {n : Nat} {l : List LineItem} :
+    (NRec.lines n l).size = 1 + (l.map LineItem.size).sum := rfl
+@[simp] theorem NRec.size_short : NRec.short.size = 1 := rfl
+@[simp] theorem NRec.size_fail {k : ErrKind} : (NRec.fail k).size = 1 := rfl
+@[simp] theorem NRec.size_crash {s : Site} : (NRec.crash s).size = 1 := rfl
+
+theorem PR.bind_ok_iff {α β : Type} {x : PR α} {f : α → List Nat → PR β} {b : β} {r : List Nat} :
+    x.bind f = .ok b r ↔ ∃ a r1, x = .ok a r1 ∧ f a r1 = .ok b r := by
+  cases x with
+  | ok a r1 =>
+    simp only [PR.bind]
+    constructor
+    · intro h; exact ⟨_, _, rfl, h⟩
+    · rintro ⟨a', r1', h1, h⟩
+      simp only [PR.ok.injEq] at h1
+      rw [h1.1, h1.2]; exact h
+  | short => simp [PR.bind]
+  | crash s => simp [PR.bind]
+
+theorem parseFunc_size {le : Bool} {version : Nat} {bs r : List Nat} {rec : NRec}
+    (h : parseFunc le version bs = .ok rec r) : rec.size + r.length + 8 ≤ bs.length := by
+  unfold parseFunc at h
+  obtain ⟨ident, r1, h1, h⟩ := PR.bind_ok_iff.1 h
+  obtain ⟨lsum, r2, h2, h⟩ := PR.bind_ok_iff.1 h
+  obtain ⟨csum, r3, h3, h⟩ := PR.bind_ok_iff.1 h
+  obtain ⟨name, r4, h4, h⟩ := PR.bind_ok_iff.1 h
+  have l1 := readU32_length h1
+  have l2 := readU32_length h2
+  have l3 : r3.length ≤ r2.length := by
+    split at h3
+    · have := readU32_length h3; omega
+    · simp only [PR.ok.injEq] at h3; rw [h3.2]; exact Nat.le_refl _
+  have l4 := readString_length h4
+  split at h
+  · obtain ⟨file, r5, h5, h⟩ := PR.bind_ok_iff.1 h
+    obtain ⟨start, r6, h6, h⟩ := PR.bind_ok_iff.1 h
+    have l5 := readString_length h5
+    have l6 := readU32_length h6
+    simp only [PR.ok.injEq] at h
+    rw [← h.1, ← h.2]
+    simp only [NRec.size_func]
+    omega
+  · obtain ⟨art, r5, h5, h⟩ := PR.bind_ok_iff.1 h
+    obtain ⟨file, r6, h6, h⟩ := PR.bind_ok_iff.1 h
+    obtain ⟨start, r7, h7, h⟩ := PR.bind_ok_iff.1 h
+    obtain ⟨sc, r8, h8, h⟩ := PR.bind_ok_iff.1 h
+    obtain ⟨en, r9, h9, h⟩ := PR.bind_ok_iff.1 h
+    have l5 := readU32_length h5
+    have l6 := readString_length h6
+    have l7 := readU32_length h7
+    have l8 := readU32_length h8
+    have l9 := readU32_length h9
+    split at h
+    · obtain ⟨ec, r10, h10, h⟩ := PR.bind_ok_iff.1 h
+      have l10 := readU32_length h10
+      simp only [PR.ok.injEq] at h
+      rw [← h.1, ← h.2]
+      simp only [NRec.size_func]
+      omega
+    · simp only [PR.ok.injEq] at h
+      rw [← h.1, ← h.2]
+      simp only [NRec.size]
+      omega
+
+theorem parsePairs_length (le : Bool) : ∀ (k : Nat) (bs : List Nat) (acc : List (Nat × Nat)),
+    8 * (parsePairs le k bs acc).1.length + optLen (parsePairs le k bs acc).2 ≤
+      bs.length + 8 * acc.length := by
+  intro k
+  induction k with
+  | zero => intro bs acc; simp only [parsePairs, optLen]; omega
+  | succ k ih =>
+    intro bs acc
+    simp only [parsePairs]
+    cases h1 : readU32 le bs with
+    | ok d r1 =>
+      have l1 := readU32_length h1
+      simp only
+      cases h2 : readU32 le r1 with
+      | ok fl r2 =>
+        have l2 := readU32_length h2
+        have := ih r2 (acc ++ [(d, fl)])
+        simp only [List.length_append, List.length_cons, List.length_nil] at this
+        simp only
+        omega
+      | short => simp [optLen]
+      | crash s => simp [optLen]
+    | short => simp [optLen]
+    | crash s => simp [optLen]
+
+theorem parsePairs_some_len {le : Bool} {k : Nat} {bs r : List Nat} {as : List (Nat × Nat)}
+    (h : parsePairs le k bs [] = (as, some r)) : 8 * as.length + r.length ≤ bs.length := by
+  have := parsePairs_length le k bs []
+  rw [h] at this
+  simpa [optLen] using this
+
+theorem parsePairs_none_len {le : Bool} {k : Nat} {bs : List Nat} {as : List (Nat × Nat)}
+    (h : parsePairs le k bs [] = (as, none)) : 8 * as.length ≤ bs.length := by
+  have := parsePairs_length le k bs []
+  rw [h] at this
+  simpa [optLen] using this
+
+theorem parseItems_length (le : Bool) : ∀ (fuel : Nat) (bs : List Nat) (acc : List LineItem),
+    ((parseItems le fuel bs acc).1.map LineItem.size).sum + optLen (parseItems le fuel bs acc).2.1 ≤
+      bs.length + (acc.map LineItem.size).sum := by
+  intro fuel
+  induction fuel with
+  | zero => intro bs acc; simp [parseItems, optLen]
+  | succ fuel ih =>
+    intro bs acc
+    simp only [parseItems]
+    cases h1 : readU32 le bs with
+    | ok l r1 =>
+      have l1 := readU32_length h1
+      simp only
+      split
+      · have := ih r1 (acc ++ [.line l])
+        simp only [List.map_append, List.sum_append, List.map_cons, List.map_nil, List.sum_cons,
+          List.sum_nil, LineItem.size] at this
+        omega
+      · cases h2 : readString le r1 with
+        | ok nm r2 =>
+          have l2 := readString_length h2
+          simp only
+          split
+          · simp only [optLen]; omega
+          · have := ih r2 (acc ++ [.file nm])
+            simp only [List.map_append, List.sum_append, List.map_cons, List.map_nil, List.sum_cons,
+              List.sum_nil, LineItem.size] at this
+            omega
+        | short => simp [optLen]
+        | crash s => simp [optLen]
+    | short => simp [optLen]
+    | crash s => simp [optLen]
+
+theorem parseItems_some_len {le : Bool} {fuel : Nat} {bs r : List Nat} {items : List LineItem}
+    {o : Option Site} (h : parseItems le fuel bs [] = (items, some r, o)) :
+    (items.map LineItem.size).sum + r.length ≤ bs.length := by
+  have := parseItems_length le fuel bs []
+  rw [h] at this
+  simpa [optLen] using this
+
+theorem parseItems_none_len {le : Bool} {fuel : Nat} {bs : List Nat} {items : List LineItem}
+    {o : Option Site} (h : parseItems le fuel bs [] = (items, none, o)) :
+    (items.map LineItem.size).sum ≤ bs.length := by
+  have := parseItems_length le fuel bs []
+  rw [h] at this
+  simpa [optLen] using this
+
+theorem skipWords_length : ∀ (k : Nat) (bs r : List Nat), skipWords k bs = some r →
+    r.length + 4 * k = bs.length := by
+  intro k
+  induction k with
+  | zero => intro bs r h; simp only [skipWords, Option.some.injEq] at h; rw [h]; omega
+  | succ k ih =>
+    intro bs r h
+    simp only [skipWords] at h
+    split at h
+    · rename_i u r1 h1
+      have := skipN_length h1
+      have := ih _ _ h
+      omega
+    · cases h
+
+/-- the gcno record stream, block tables aside, is linear in the input: records + name bytes +
+arcs + line items ≤ bytes -/
+theorem parseRecs_size (le : Bool) (version blen : Nat) (fuel total : Nat) (hf : Bool)
+    (bs : List Nat) : ((parseRecs le version blen fuel total hf bs).map NRec.size).sum ≤ bs.length := by
+  fun_induction parseRecs le version blen fuel total hf bs
+  all_goals (try simp only [List.map_nil, List.sum_nil, List.map_cons, List.sum_cons, NRec.size_func,
+    NRec.size_blocks, NRec.size_arcs, NRec.size_lines, NRec.size_short, NRec.size_fail,
+    NRec.size_crash, Nat.zero_le])
+  all_goals (try (have hpf := parseFunc_size ‹parseFunc le version _ = PR.ok _ _›))
+  all_goals (try (have hpp := parsePairs_some_len ‹parsePairs le _ _ [] = (_, some _)›))
+  all_goals (try (have hpp := parsePairs_none_len ‹parsePairs le _ _ [] = (_, none)›))
+  all_goals (try (have hpi := parseItems_some_len ‹parseItems le _ _ [] = (_, some _, _)›))
+  all_goals (try (have hpi := parseItems_none_len ‹parseItems le _ _ [] = (_, none, _)›))
+  all_goals (try (have hsw := skipWords_length _ _ _ ‹skipWords _ _ = some _›))
+  all_goals grind [readU32_length, skipN_length]
+
+theorem parseFunc_not_blocks (le : Bool) (version : Nat) (bs : List Nat) :
+    PR.All (fun rec => ∀ n, rec ≠ NRec.blocks n) (parseFunc le version bs) := by
+  unfold parseFunc
+  refine PR.All.bind fun ident r1 => ?_
+  refine PR.All.bind fun lsum r2 => ?_
+  refine PR.All.bind fun csum r3 => ?_
+  refine PR.All.bind fun name r4 => ?_
+  split
+  · refine PR.All.bind fun file r5 => ?_
+    refine PR.All.bind fun start r6 => ?_
+    exact PR.All.ok (fun n h => by cases h)
+  · refine PR.All.bind fun _ r5 => ?_
+    refine PR.All.bind fun file r6 => ?_
+    refine PR.All.bind fun start r7 => ?_
+    refine PR.All.bind fun _ r8 => ?_
+    refine PR.All.bind fun en r9 => ?_
+    split
+    · refine PR.All.bind fun _ r10 => ?_
+      exact PR.All.ok (fun n h => by cases h)
+    · exact PR.All.ok (fun n h => by cases h)
+
+/-- every BLOCKS record announces at most as many blocks as the file has bytes -/
+theorem parseRecs_blocks (le : Bool) (version blen : Nat) (fuel total : Nat) (hf : Bool)
+    (bs : List Nat) : ∀ n, NRec.blocks n ∈ parseRecs le version blen fuel total hf bs → n ≤ bs.length := by
+  fun_induction parseRecs le version blen fuel total hf bs
+  all_goals (try simp only [List.mem_cons, List.not_mem_nil, NRec.blocks.injEq, reduceCtorEq,
+    false_or, or_false, false_imp_iff, implies_true])
+  all_goals (try (have hpf := parseFunc_size ‹parseFunc le version _ = PR.ok _ _›))
+  all_goals (try (have hnb := parseFunc_not_blocks le version _ _ _ ‹parseFunc le version _ = PR.ok _ _›))
+  all_goals (try (have hpp := parsePairs_some_len ‹parsePairs le _ _ [] = (_, some _)›))
+  all_goals (try (have hpi := parseItems_some_len ‹parseItems le _ _ [] = (_, some _, _)›))
+  all_goals (try (have hsw := skipWords_length _ _ _ ‹skipWords _ _ = some _›))
+  all_goals grind [readU32_length, skipN_length]
+
+/-! ## the closed witnesses, evaluated -/
+
+theorem blocksWitness_length : blocksWitness.length = 152 := by decide +kernel
+
+/-- since the fix "a gcno file cannot announce more blocks in total than it has bytes" the former
+witness of the quadratic block table (six BLOCKS records, 204 blocks for 152 bytes) is rejected -/
+theorem blocksWitness_rejected : (readBuild blocksWitness).errKind? = some .blockCount := by
+  decide +kernel
 
 end Grcov.Gcno
